@@ -26,9 +26,106 @@ class ExtractError(Exception):
         self.item = item
 
 
-def read(rel):
+def strip_rust_comments(text):
+    """Rust text with comments blanked out (newlines and string/char literals kept), so that patterns see code only."""
+    out = []
+    i, n = 0, len(text)
+    while i < n:
+        c = text[i]
+        if c == '"':
+            j = i + 1
+            while j < n and text[j] != '"':
+                j += 2 if text[j] == "\\" else 1
+            out.append(text[i : j + 1])
+            i = j + 1
+        elif text.startswith("//", i):
+            j = text.find("\n", i)
+            i = n if j < 0 else j
+        elif text.startswith("/*", i):
+            j = text.find("*/", i + 2)
+            j = n if j < 0 else j + 2
+            out.append("\n" * text.count("\n", i, j))
+            i = j
+        elif c == "'" and i + 2 < n and (text[i + 2] == "'" or text[i + 1] == "\\"):
+            j = text.find("'", i + 2)
+            out.append(text[i : j + 1])
+            i = j + 1
+        else:
+            out.append(c)
+            i += 1
+    return "".join(out)
+
+
+def read(rel, raw=False):
     with open(os.path.join(REPO, rel), "r", encoding="utf-8") as f:
-        return f.read()
+        text = f.read()
+    return text if raw else strip_rust_comments(text)
+
+
+DRIFT = []  # shape pins that no longer match: not a broken tie, a reason to search wider (see need_shape)
+
+
+def need_shape(item, pattern, text, flags=re.S):
+    """A SHAPE PIN: a pattern that only says "this piece of hand-modelled logic still reads the way it did".
+    The tie of hand-modelled logic is the correspondence check, so a pin that is gone is recorded as drift
+    (./check widens its search and lists it in the evidence); it is not a broken obligation by itself."""
+    m = re.search(pattern, text, flags)
+    if not m:
+        DRIFT.append({"item": item, "pattern": pattern[:80]})
+    return m
+
+
+_INT = r"(?:0x[0-9a-fA-F_]+|0b[01_]+|0o[0-7_]+|\d[\d_]*)(?:_?(?:u8|u16|u32|u64|usize|i8|i16|i32|i64|isize))?"
+
+
+def const_defs(*texts):
+    """name -> defining expression of every `const NAME: T = expr;` in the given texts"""
+    d = {}
+    for t in texts:
+        for m in re.finditer(r"\bconst\s+(\w+)\s*:\s*[^=;]+?=\s*([^;]+);", t):
+            d.setdefault(m.group(1), m.group(2).strip())
+    return d
+
+
+def cexpr(item, expr, defs, depth=0):
+    """Value of an integer constant expression: literals in any base, + - * / ( ), `as T`, named constants
+    (optionally path-qualified) resolved through `defs`. Anything else is an error, never a guess."""
+    if depth > 8:
+        raise ExtractError(item, "constant definitions nest too deep")
+    s = re.sub(r"\bas\s+(?:u8|u16|u32|u64|usize|i8|i16|i32|i64|isize|Score)\b", "", expr)
+    toks = re.findall(r"\s*(" + _INT + r"|[A-Za-z_][\w:]*|[-+*/()])", s)
+    if "".join(toks).replace(" ", "") != re.sub(r"\s+", "", s):
+        raise ExtractError(item, f"not a constant expression: {expr[:60]!r}")
+    py = []
+    for tk in toks:
+        if re.fullmatch(_INT, tk):
+            lit = re.sub(r"_?(?:u8|u16|u32|u64|usize|i8|i16|i32|i64|isize)$", "", tk).replace("_", "")
+            py.append(str(int(lit, 0)))
+        elif tk in "+-*()":
+            py.append(tk)
+        elif tk == "/":
+            py.append("//")
+        else:
+            name = tk.split("::")[-1]
+            if name not in defs:
+                raise ExtractError(item, f"unknown constant {tk}")
+            py.append("(" + str(cexpr(item, defs[name], defs, depth + 1)) + ")")
+    try:
+        return int(eval(" ".join(py), {"__builtins__": {}}))
+    except Exception:
+        raise ExtractError(item, f"cannot evaluate {expr[:60]!r}")
+
+
+def array_expr(item, expr, text):
+    """The bracketed literal an expression denotes: itself, or the definition of the named const/static it names."""
+    e = expr.strip()
+    if e.startswith("["):
+        return e
+    name = e.lstrip("&").split("::")[-1]
+    m = re.search(rf"\b(?:const|static)\s+{re.escape(name)}\s*:\s*[^=]+=\s*(\[.*?\])\s*;", text, re.S)
+    if not m:
+        raise ExtractError(item, f"no array literal or named constant array: {e[:40]!r}")
+    return m.group(1)
 
 
 def lineno(text, idx):
@@ -85,49 +182,89 @@ def rays(item, s):
     return out
 
 
+CACHE = {}      # last good values per group (gen/extract_cache.json), filled by main()
+GROUP = [None]  # name of the group being extracted
+
+
+def soft(item, key, thunk):
+    """A LOGIC LITERAL (a delta list, a row number, a mate offset inside hand-modelled code): read it when the text
+    still has a shape I can read; otherwise keep the last good value, record drift, and let the correspondence
+    check (which ties hand-modelled logic to the code) decide. Never defaulted: without a last good value it fails."""
+    try:
+        return thunk()
+    except ExtractError as e:
+        last = CACHE.get(GROUP[0], {})
+        if key not in last:
+            raise
+        DRIFT.append({"item": e.item, "pattern": str(e)[:100], "kept_last_good": key})
+        return last[key]
+
+
+def probe():
+    """Build and run /verif/probe (compiles zobrist.rs, scores.rs, constants.rs of the working tree): the constant
+    data as the compiler evaluates it."""
+    import subprocess
+    here = os.path.dirname(os.path.abspath(__file__))
+    pdir = os.path.join(here, "..", "probe")
+    tdir = os.path.join(here, "..", ".build", "probe")
+    env = dict(os.environ, CARGO_NET_OFFLINE="true", VERIF_REPO=REPO)
+    r = subprocess.run(["cargo", "build", "--offline", "--release", "--manifest-path", os.path.join(pdir, "Cargo.toml"),
+                        "--target-dir", tdir], capture_output=True, text=True, env=env)
+    if r.returncode != 0:
+        raise ExtractError("probe.build", r.stderr[-400:])
+    r = subprocess.run([os.path.join(tdir, "release", "chessprobe")], capture_output=True, text=True)
+    if r.returncode != 0:
+        raise ExtractError("probe.run", r.stderr[-400:])
+    try:
+        return json.loads(r.stdout)
+    except Exception:
+        raise ExtractError("probe.output", r.stdout[:200])
+
+
+PROBE = {}
+
+
+def get_probe():
+    if "v" not in PROBE:
+        PROBE["v"] = probe()
+    return PROBE["v"]
+
+
 def g_zobrist(C):
-    # ------------------------------------------------------------ zobrist
+    # ------------------------------------------------------------ zobrist: VALUES from the compiled probe
+    P = get_probe()
+    btm, emp, state, piece = P["BLACK_TO_MOVE"], P["EMPTY_PLACE"], P["STATE"], P["PIECE"]
+    if len(state) != 256:
+        raise ExtractError("zobrist.STATE", f"{len(state)} keys")
+    if (P["PIECE_ROWS"], P["PIECE_COLS"]) != (64, 12) or len(piece) != 768:
+        raise ExtractError("zobrist.PIECE", f"{P['PIECE_ROWS']}x{P['PIECE_COLS']}")
     z = read("src/chess/zobrist.rs")
-    m = need("zobrist.file", r'include_bytes!\("\.\./\.\./(zobrist_bytes\.bin)"\)', z)
-    with open(os.path.join(REPO, m.group(1)), "rb") as f:
+    m = need_shape("zobrist.file", r'include_bytes!\("\.\./\.\./(zobrist_bytes\.bin)"\)', z)
+    with open(os.path.join(REPO, m.group(1) if m else "zobrist_bytes.bin"), "rb") as f:
         zb = f.read()
-    m = need("zobrist.filelen", r"&\[u8;\s*(\d+)\]", z)
-    if int(m.group(1)) != len(zb):
-        raise ExtractError("zobrist.filelen", "declared length differs from file")
-    need("zobrist.le", r"u64::from_le_bytes\(bytes\)", z)
-    body, _ = fn_body("zobrist.window", z, r"const fn get_random_nums<const COUNT: usize>\(start: usize\)[^{]*\{")
-    for k in range(8):
-        pat = r"ZOBRIST_NUMS\[start \+ i \* 8\]" if k == 0 else rf"ZOBRIST_NUMS\[start \+ i \* 8 \+ {k}\]"
-        need(f"zobrist.window.byte{k}", pat, body)
-    need("zobrist.window.order", r"let bytes = \[\s*" + r",\s*".join(
-        [r"ZOBRIST_NUMS\[start \+ i \* 8\]"] + [rf"ZOBRIST_NUMS\[start \+ i \* 8 \+ {k}\]" for k in range(1, 8)]) + r",?\s*\]", body)
 
     def nums(count, start):
         return [int.from_bytes(zb[start + i * 8 : start + i * 8 + 8], "little") for i in range(count)]
 
-    def start_expr(item, name, cnt):
-        m = need(item, rf"{name}[^=]*=\s*(?:\{{\s*let flat_array = )?get_random_nums::<{cnt}>\(([^)]*)\)", z)
-        e = m.group(1).replace(" ", "")
-        if not re.fullmatch(r"\d+(\+\d+)*", e):
-            raise ExtractError(item, "start expression not a sum of literals")
-        return sum(int(t) for t in e.split("+"))
+    def window(item, vals):
+        """byte offset of a contiguous little-endian window of the key file holding exactly these values (-1: none)"""
+        off = zb.find(vals[0].to_bytes(8, "little"))
+        while off >= 0:
+            if nums(len(vals), off) == vals:
+                return off
+            off = zb.find(vals[0].to_bytes(8, "little"), off + 1)
+        DRIFT.append({"item": item, "pattern": "keys are not a contiguous little-endian window of the key file"})
+        return -1
 
-    s_btm = start_expr("zobrist.BLACK_TO_MOVE", "BLACK_TO_MOVE", 1)
-    s_emp = start_expr("zobrist.EMPTY_PLACE", "EMPTY_PLACE", 1)
-    s_st = start_expr("zobrist.STATE", r"STATE: \[u64; 256\]", 256)
-    s_pc = start_expr("zobrist.PIECE", r"PIECE: \[\[u64; 12\]; 64\]", 768)
-    need("zobrist.PIECE.layout", r"array\[i\]\[j\] = flat_array\[i \* 12 \+ j\];", z)
-    need("zobrist.PIECE.i", r"while i < 64", z)
-    need("zobrist.PIECE.j", r"while j < 12", z)
-    btm = nums(1, s_btm)[0]
-    emp = nums(1, s_emp)[0]
-    state = nums(256, s_st)
-    piece = nums(768, s_pc)
-    C["zobrist"] = {"offsets": [s_btm, s_emp, s_st, s_pc], "BLACK_TO_MOVE": f"{btm:016X}", "EMPTY_PLACE": f"{emp:016X}"}
+    s_btm, s_emp, s_st, s_pc = window("zobrist.BLACK_TO_MOVE", [btm]), window("zobrist.EMPTY_PLACE", [emp]), window("zobrist.STATE", state), window("zobrist.PIECE", piece)
+    # shape pins of the layout code (drift only: the values above are what the compiler computed)
+    need_shape("zobrist.le", r"u64::from_le_bytes\(bytes\)", z)
+    need_shape("zobrist.PIECE.layout", r"array\[i\]\[j\] = flat_array\[i \* 12 \+ j\];", z)
+    C["zobrist"] = {"offsets": [s_btm, s_emp, s_st, s_pc], "BLACK_TO_MOVE": f"{btm:016X}", "EMPTY_PLACE": f"{emp:016X}", "source": "compiled probe"}
     digest = hashlib.sha256(b"".join(x.to_bytes(8, "little") for x in [btm, emp] + state + piece)).hexdigest()
     C["zobrist"]["sha256"] = digest
 
-    readme = read("README.md")
+    readme = read("README.md", raw=True)
     m = need("readme.starthash", r"starting position hash is always `([0-9A-F]{16})`", readme)
     start_hash = int(m.group(1), 16)
     C["start_hash"] = m.group(1)
@@ -135,18 +272,16 @@ def g_zobrist(C):
 
 
 def g_scores(C):
-    # ------------------------------------------------------------ scores
-    sc = read("src/chess/scores.rs")
+    # ------------------------------------------------------------ scores: VALUES from the compiled probe
+    P = get_probe()
     tables = {}
     for name in ["PAWN_SCORES", "KNIGHT_SCORES", "BISHOP_SCORES", "ROOK_SCORES", "QUEEN_SCORES",
                  "KING_SCORES_MIDDLE", "KING_SCORES_END"]:
-        m = need(f"scores.{name}", rf"pub const {name}: \[i16; 64\] = \[(.*?)\];", sc)
-        vals = [int(v) for v in re.findall(r"-?\d+", m.group(1))]
+        vals = P[name]
         if len(vals) != 64:
             raise ExtractError(f"scores.{name}", "not 64 entries")
         tables[name] = vals
-    m = need("scores.ENDGAME_THRESHOLD", r"pub const ENDGAME_THRESHOLD: u32 = ([\d_ +]+);", sc)
-    thr = sum(int(t.replace("_", "")) for t in m.group(1).split("+"))
+    thr = P["ENDGAME_THRESHOLD"]
     C["ENDGAME_THRESHOLD"] = thr
 
     mod = read("src/chess/mod.rs")
@@ -155,54 +290,63 @@ def g_scores(C):
     order = re.findall(r"Cell::new\(&scores::(\w+)\)", m.group(1))
     if order != ["QUEEN_SCORES", "ROOK_SCORES", "BISHOP_SCORES", "KNIGHT_SCORES", "PAWN_SCORES", "KING_SCORES_MIDDLE"]:
         raise ExtractError("mod.piece_scores_order", str(order))
-    need("mod.update_phase.table", r"self\.piece_scores\[PieceType::King as usize\]\.set\(&scores::KING_SCORES_END\)", mod)
-    need("mod.is_endgame.cmp", r"total_piece_score < 2 \* ENDGAME_THRESHOLD", mod)
-    m = need("mod.Player", r"pub enum Player \{\s*White = (-?\d+),\s*Black = (-?\d+),\s*\}", mod)
+    need_shape("mod.update_phase.table", r"self\.piece_scores\[PieceType::King as usize\]\.set\(&scores::KING_SCORES_END\)", mod)
+    need_shape("mod.is_endgame.cmp", r"total_piece_score < 2 \* ENDGAME_THRESHOLD", mod)
+    m = need("mod.Player", r"pub enum Player \{\s*White = (-?\d+),\s*Black = (-?\d+),?\s*\}", mod)
     if (int(m.group(1)), int(m.group(2))) != (1, -1):
         raise ExtractError("mod.Player", "discriminants changed")
 
     pc = read("src/chess/piece.rs")
+    defs = const_defs(pc, read("src/constants.rs"))
     m = need("piece.PieceType", r"pub enum PieceType \{(.*?)\}", pc)
     ptorder = re.findall(r"\w+", m.group(1))
     if ptorder != ["Queen", "Rook", "Bishop", "Knight", "Pawn", "King"]:
         raise ExtractError("piece.PieceType", str(ptorder))
-    body, _ = fn_body("piece.material_value", pc, r"pub fn material_value\(self\) -> u8 \{\s*match self \{")
+    body, _ = fn_body("piece.material_value", pc, r"fn material_value\(self\) -> u8 \{")
     mat = {}
     for name in ptorder:
-        mm = need(f"piece.material_value.{name}", rf"PieceType::{name} => (\d+)", body)
-        mat[name] = int(mm.group(1))
+        mm = need(f"piece.material_value.{name}", rf"(?:PieceType|Self)::{name} => ([^,}}]+)", body)
+        mat[name] = cexpr(f"piece.material_value.{name}", mm.group(1), defs)
     C["material"] = mat
-    need("piece.as_index", r"let mut index = self\.piece_type as usize;\s*if self\.owner == Player::Black \{\s*index \+= 6;", pc)
-    need("piece.score.row", r"Player::White => 7 - pos\.row\(\),\s*Player::Black => pos\.row\(\),", pc)
-    need("piece.score.sign", r"piece_score \* self\.owner as Score", pc)
+    need_shape("piece.as_index", r"let mut index = self\.piece_type as usize;\s*if self\.owner == Player::Black \{\s*index \+= 6;", pc)
+    need_shape("piece.score.row", r"Player::White => 7 - pos\.row\(\),\s*Player::Black => pos\.row\(\),", pc)
+    need_shape("piece.score.sign", r"piece_score \* self\.owner as Score", pc)
     return dict(tables=tables, thr=thr, mat=mat, ptorder=ptorder)
 
 
 def g_deltas(C):
     mod = read("src/chess/mod.rs")
     pc = read("src/chess/piece.rs")
-    ptorder = ["Queen", "Rook", "Bishop", "Knight", "Pawn", "King"]
-    # ------------------------------------------------------------ deltas
-    body, _ = fn_body("piece.get_moves", pc, r"pub fn get_moves\(self, mut push: impl FnMut\(Move\), game: &Game, pos: Position\) \{")
-    m = need("piece.rays.rook", r"PieceType::Rook => \{\s*search_deltas!\[(.*?)\];", body)
-    rook_rays = rays("piece.rays.rook", m.group(1))
-    m = need("piece.rays.bishop", r"PieceType::Bishop => \{\s*search_deltas!\[(.*?)\];", body)
-    bishop_rays = rays("piece.rays.bishop", m.group(1))
-    m = need("piece.rays.queen", r"PieceType::Queen => \{\s*search_deltas!\[(.*?)\];", body)
-    queen_rays = rays("piece.rays.queen", m.group(1))
-    kb, _ = fn_body("piece.get_king_moves", pc, r"fn get_king_moves\(self, mut push: impl FnMut\(Move\), game: &Game, pos: Position\) \{")
-    m = need("piece.king_deltas", r"for delta in \[(.*?)\] \{", kb)
-    king_deltas = pairs("piece.king_deltas", m.group(1))
-    nb, _ = fn_body("piece.get_knight_moves", pc, r"fn get_knight_moves\(self, mut push: impl FnMut\(Move\), game: &Game, pos: Position\) \{")
-    m = need("piece.knight_deltas", r"for delta in \[(.*?)\] \{", nb)
-    knight_deltas = pairs("piece.knight_deltas", m.group(1))
-    pb, _ = fn_body("piece.get_pawn_moves", pc, r"fn get_pawn_moves\(self, mut push: impl FnMut\(Move\), game: &Game, pos: Position\) \{")
+    # ------------------------------------------------------------ deltas (logic literals: soft)
+    def ray_set(item, kind):
+        body, _ = fn_body("piece.get_moves", pc, r"pub fn get_moves\(self, mut push: impl FnMut\(Move\), game: &Game, pos: Position\) \{")
+        m = need(item, rf"PieceType::{kind} => \{{\s*search_deltas!\[(.*?)\];", body)
+        return rays(item, m.group(1))
+
+    rook_rays = soft("piece.rays.rook", "rook_rays", lambda: ray_set("piece.rays.rook", "Rook"))
+    bishop_rays = soft("piece.rays.bishop", "bishop_rays", lambda: ray_set("piece.rays.bishop", "Bishop"))
+    queen_rays = soft("piece.rays.queen", "queen_rays", lambda: ray_set("piece.rays.queen", "Queen"))
+
+    def step_list(item, fn_re):
+        b, _ = fn_body(item, pc, fn_re)
+        m = need(item, r"for delta in ([^{]*?)\s*\{", b)
+        return pairs(item, array_expr(item, m.group(1), pc))
+
+    king_deltas = soft("piece.king_deltas", "king_deltas", lambda: step_list("piece.king_deltas", r"fn get_king_moves\(self, mut push: impl FnMut\(Move\), game: &Game, pos: Position\) \{"))
+    knight_deltas = soft("piece.knight_deltas", "knight_deltas", lambda: step_list("piece.knight_deltas", r"fn get_knight_moves\(self, mut push: impl FnMut\(Move\), game: &Game, pos: Position\) \{"))
+
+    def pawn_body():
+        return fn_body("piece.get_pawn_moves", pc, r"fn get_pawn_moves\(self, mut push: impl FnMut\(Move\), game: &Game, pos: Position\) \{")[0]
 
     def two(item, name, kind="int"):
-        mm = need(item, rf"let {name} = match self\.owner \{{\s*Player::White => (.*?),\s*Player::Black => (.*?),\s*\}};", pb)
-        if kind == "int":
-            return int(mm.group(1)), int(mm.group(2))
-        return pairs(item, mm.group(1)), pairs(item, mm.group(2))
+        def go():
+            pb = pawn_body()
+            mm = need(item, rf"let {name} = match self\.owner \{{\s*Player::White => (.*?),\s*Player::Black => (.*?),?\s*\}};", pb)
+            if kind == "int":
+                d = const_defs(pc)
+                return cexpr(item, mm.group(1), d), cexpr(item, mm.group(2), d)
+            return pairs(item, mm.group(1)), pairs(item, mm.group(2))
+        return soft(item, name, go)
 
     first_row = two("piece.pawn.first_row", "first_row")
     last_row = two("piece.pawn.last_row", "last_row")
@@ -210,38 +354,61 @@ def g_deltas(C):
     normal_delta = two("piece.pawn.normal_delta", "normal_delta", "pairs")
     first_delta = two("piece.pawn.first_row_delta", "first_row_delta", "pairs")
     side_deltas = two("piece.pawn.side_deltas", "side_deltas", "pairs")
-    promo = re.findall(r"for new_piece in \[\s*((?:PieceType::\w+,?\s*)+)\]", pb)
-    if len(promo) != 2:
-        raise ExtractError("piece.pawn.promo_order", "expected two promotion loops")
-    promo_orders = [re.findall(r"PieceType::(\w+)", p) for p in promo]
-    if promo_orders[0] != promo_orders[1]:
-        raise ExtractError("piece.pawn.promo_order", "the two loops differ")
-    need("piece.pawn.ep_rule", r"pos\.row\(\) == en_passant_row\s*&& valid_en_passant < 8\s*&& i8::abs\(valid_en_passant - pos\.col\(\)\) == 1", pb)
 
-    tb, _ = fn_body("mod.is_targeted", mod, r"pub fn is_targeted\(&self, position: Position, player: Player\) -> bool \{")
-    loops = re.findall(r"for delta in \[(.*?)\] \{", tb, re.S)
-    if len(loops) != 2:
-        raise ExtractError("mod.is_targeted.loops", f"{len(loops)} literal delta loops")
-    t_king = pairs("mod.is_targeted.king", loops[0])
-    t_knight = pairs("mod.is_targeted.knight", loops[1])
-    m = need("mod.is_targeted.pawn", r"Player::White => \{(.*?)\}\s*Player::Black => \{(.*?)\}\s*\};\s*// Helpful macro", tb)
-    t_pawn_w = [tuple(map(int, x)) for x in re.findall(r"position\.add\(\((-?\d+), (-?\d+)\)\)", m.group(1))]
-    t_pawn_b = [tuple(map(int, x)) for x in re.findall(r"position\.add\(\((-?\d+), (-?\d+)\)\)", m.group(2))]
-    if len(t_pawn_w) != 2 or len(t_pawn_b) != 2:
-        raise ExtractError("mod.is_targeted.pawn", "expected two pawn squares per colour")
-    m = need("mod.is_targeted.lines", r"search_enemies_loops!\[\s*PieceType::Rook,\s*PieceType::Queen,(.*?)\];", tb)
-    t_lines = rays("mod.is_targeted.lines", m.group(1))
-    m = need("mod.is_targeted.diags", r"search_enemies_loops!\[\s*PieceType::Bishop,\s*PieceType::Queen,(.*?)\];", tb)
-    t_diags = rays("mod.is_targeted.diags", m.group(1))
+    def promo():
+        pb = pawn_body()
+        loops = re.findall(r"for new_piece in ([^{]*?)\s*\{", pb)
+        if len(loops) != 2:
+            raise ExtractError("piece.pawn.promo_order", "expected two promotion loops")
+        orders = [re.findall(r"PieceType::(\w+)", array_expr("piece.pawn.promo_order", l, pc)) for l in loops]
+        if orders[0] != orders[1] or not orders[0]:
+            raise ExtractError("piece.pawn.promo_order", "the two loops differ")
+        return orders
+
+    promo_orders = soft("piece.pawn.promo_order", "promo_orders", promo)
+    need_shape("piece.pawn.ep_rule", r"pos\.row\(\) == en_passant_row\s*&& valid_en_passant < 8\s*&& i8::abs\(valid_en_passant - pos\.col\(\)\) == 1", pawn_body() if re.search(r"fn get_pawn_moves", pc) else pc)
+
+    def targeted():
+        tb, _ = fn_body("mod.is_targeted", mod, r"pub fn is_targeted\(&self, position: Position, player: Player\) -> bool \{")
+        exprs = [l for l in re.findall(r"for delta in ([^{]*?)\s*\{", tb, re.S) if re.match(r"\[|&?(?:\w+::)*[A-Z][A-Z0-9_]*$", l.strip())]
+        loops = [pairs("mod.is_targeted.loops", array_expr("mod.is_targeted.loops", l, mod)) for l in exprs]
+        kings = [l for l in loops if len(l) == 8 and all(max(abs(a), abs(b)) == 1 for a, b in l)]
+        knights = [l for l in loops if len(l) == 8 and all(sorted((abs(a), abs(b))) == [1, 2] for a, b in l)]
+        if len(kings) != 1 or len(knights) != 1:
+            raise ExtractError("mod.is_targeted.loops", f"{len(kings)} king-step and {len(knights)} knight-jump loops")
+        m = need("mod.is_targeted.pawn", r"Player::White => \{(.*?)\}\s*Player::Black => \{(.*?)\}\s*\};", tb)
+        t_pawn_w = [tuple(map(int, x)) for x in re.findall(r"position\.add\(\((-?\d+), (-?\d+)\)\)", m.group(1))]
+        t_pawn_b = [tuple(map(int, x)) for x in re.findall(r"position\.add\(\((-?\d+), (-?\d+)\)\)", m.group(2))]
+        if len(t_pawn_w) != 2 or len(t_pawn_b) != 2:
+            raise ExtractError("mod.is_targeted.pawn", "expected two pawn squares per colour")
+        m = need("mod.is_targeted.lines", r"search_enemies_loops!\[\s*PieceType::Rook,\s*PieceType::Queen,(.*?)\];", tb)
+        t_lines = rays("mod.is_targeted.lines", m.group(1))
+        m = need("mod.is_targeted.diags", r"search_enemies_loops!\[\s*PieceType::Bishop,\s*PieceType::Queen,(.*?)\];", tb)
+        t_diags = rays("mod.is_targeted.diags", m.group(1))
+        return dict(t_king=kings[0], t_knight=knights[0], t_pawn_w=t_pawn_w, t_pawn_b=t_pawn_b, t_lines=t_lines, t_diags=t_diags)
+
+    def targeted_soft():
+        try:
+            return targeted()
+        except ExtractError as e:
+            last = CACHE.get(GROUP[0], {})
+            keys = ["t_king", "t_knight", "t_pawn_w", "t_pawn_b", "t_lines", "t_diags"]
+            if not all(k in last for k in keys):
+                raise
+            DRIFT.append({"item": e.item, "pattern": str(e)[:100], "kept_last_good": "is_targeted deltas"})
+            return {k: last[k] for k in keys}
+
+    T = targeted_soft()
 
     pos = read("src/chess/position.rs")
+    pdefs = const_defs(pos)
     homes = {}
     for name in ["WHITE_QUEEN_ROOK", "WHITE_KING_ROOK", "BLACK_QUEEN_ROOK", "BLACK_KING_ROOK"]:
-        mm = need(f"position.{name}", rf"pub const {name}: Self = Self\((\d), (\d)\);", pos)
-        homes[name] = (int(mm.group(1)), int(mm.group(2)))
-    need("position.as_usize", r"\(self\.0 \* 8 \+ self\.1\) as usize", pos)
+        mm = need(f"position.{name}", rf"pub const {name}: Self = Self\(([^,]+), ([^)]+)\);", pos)
+        homes[name] = (cexpr(f"position.{name}", mm.group(1), pdefs), cexpr(f"position.{name}", mm.group(2), pdefs))
+    need_shape("position.as_usize", r"\(self\.0 \* 8 \+ self\.1\) as usize", pos)
     C["homes"] = homes
-    return dict(rook_rays=rook_rays, bishop_rays=bishop_rays, queen_rays=queen_rays, king_deltas=king_deltas, knight_deltas=knight_deltas, first_row=first_row, last_row=last_row, ep_row=ep_row, normal_delta=normal_delta, first_delta=first_delta, side_deltas=side_deltas, promo_orders=promo_orders, t_king=t_king, t_knight=t_knight, t_pawn_w=t_pawn_w, t_pawn_b=t_pawn_b, t_lines=t_lines, t_diags=t_diags, homes=homes)
+    return dict(rook_rays=rook_rays, bishop_rays=bishop_rays, queen_rays=queen_rays, king_deltas=king_deltas, knight_deltas=knight_deltas, first_row=first_row, last_row=last_row, ep_row=ep_row, normal_delta=normal_delta, first_row_delta=first_delta, first_delta=first_delta, side_deltas=side_deltas, promo_orders=promo_orders, homes=homes, **T)
 
 
 def g_letters(C):
@@ -276,52 +443,84 @@ def g_letters(C):
 
 def g_constants(C):
     mod = read("src/chess/mod.rs")
-    # ------------------------------------------------------------ capacities & search constants
-    m = need("mod.state_cap", r"state: ArrayVec<GameState, (\d+)>", mod)
-    state_cap = int(m.group(1))
-    m = need("mod.moves_cap", r"pub fn get_moves\(&mut self, moves: &mut ArrayVec<Move, (\d+)>", mod)
-    moves_cap = int(m.group(1))
     se = read("src/search.rs")
-    m = need("search.killer_len", r"let mut killer_moves = \[None; (\d+|MAX_DEPTH as usize)\];", se)
-    kl = m.group(1)
-    m = need("search.MAX_DEPTH", r"const MAX_DEPTH: u8 = (\d+);", se)
-    max_depth_const = int(m.group(1))
-    killer_len = int(kl) if kl.isdigit() else max_depth_const
-    need("search.limit", r"let limit = max_depth\.unwrap_or\(MAX_DEPTH\)\.clamp\(1, MAX_DEPTH\);", se)
-    need("search.loop", r"for depth in starting_depth\.\.=limit \{", se)
-    need("search.exit_at_limit", r"if depth == limit\s*\|\| is_only_move", se)
-    m = need("search.history_len", r"history: &mut \[u16; (\d+) \* (\d+)\]", se)
-    history_len = int(m.group(1)) * int(m.group(2))
     uci = read("src/uci.rs")
-    m = need("uci.len_guard", r"if game\.len\(\) >= (\d+) \{", uci)
-    len_guard = int(m.group(1))
     auto = read("src/autoplay.rs")
-    m = need("autoplay.len_guard", r"if game\.len\(\) >= (\d+) \{\s*break;", auto)
-    auto_len_guard = int(m.group(1))
-    need("autoplay.loop", r"get_best_move_until_stop\(&game, &mut cache, &search_is_running, None\)", auto)
-    m = need("uci.FRACTION", r"const FRACTION_OF_TOTAL_TIME: f64 = ([\d.]+);", uci)
-    fraction = m.group(1)
-    m = need("uci.LATENCY", r"const LATENCY_MS_COMPENSATE: u64 = (\d+);", uci)
-    latency = int(m.group(1))
-    m = need("uci.cut", r"time\.saturating_sub\(Duration::from_millis\((\d+)\)\)", uci)
-    cut = int(m.group(1))
     con = read("src/constants.rs")
-    m = need("constants.TT_CAPACITY", r"pub const TT_CAPACITY: usize = ([\d_]+);", con)
-    tt_cap = int(m.group(1).replace("_", ""))
+    sdefs = const_defs(se, con)
+    udefs = const_defs(uci, con)
+    adefs = const_defs(auto, con)
+    mdefs = const_defs(mod, con)
+    # ------------------------------------------------------------ capacities (DATA: must be readable) & search constants
+    m = need("mod.state_cap", r"state: ArrayVec<GameState, ([^>]+)>", mod)
+    state_cap = cexpr("mod.state_cap", m.group(1), mdefs)
+    m = need("mod.moves_cap", r"pub fn get_moves\(&mut self, \w+: &mut ArrayVec<Move, ([^>]+)>", mod)
+    moves_cap = cexpr("mod.moves_cap", m.group(1), mdefs)
+    m = need("search.killer_len", r"let mut killer_moves = \[None; ([^\]]+)\];", se)
+    killer_len = cexpr("search.killer_len", m.group(1), sdefs)
+    max_depth_const = cexpr("search.MAX_DEPTH", "MAX_DEPTH", sdefs)
+    need_shape("search.limit", r"let limit = max_depth\.unwrap_or\(MAX_DEPTH\)\.clamp\(1, MAX_DEPTH\);", se)
+    need_shape("search.loop", r"for depth in starting_depth\.\.=limit \{", se)
+    need_shape("search.exit_at_limit", r"if depth == limit\s*\|\| is_only_move", se)
+    m = need("search.history_len", r"history: &mut \[u16; ([^\]]+)\]", se)
+    history_len = cexpr("search.history_len", m.group(1), sdefs)
+
+    def guard(item, text, defs, tail=r""):
+        m = need(item, r"if game\.len\(\) (>=|>) ([^{]+?) \{" + tail, text)
+        v = cexpr(item, m.group(2), defs)
+        return v if m.group(1) == ">=" else v + 1
+
+    len_guard = guard("uci.len_guard", uci, udefs)
+    auto_len_guard = guard("autoplay.len_guard", auto, adefs, r"\s*break;")
+    need_shape("autoplay.loop", r"get_best_move_until_stop\(&game, &mut cache, &search_is_running, None\)", auto)
+    m = need("uci.FRACTION", r"const FRACTION_OF_TOTAL_TIME: f64 = ([\d._]+);", uci)
+    fraction = m.group(1).replace("_", "")
+    latency = cexpr("uci.LATENCY", "LATENCY_MS_COMPENSATE", udefs)
+    m = need("uci.cut", r"time\.saturating_sub\(Duration::from_millis\(([^)]+)\)\)", uci)
+    cut = cexpr("uci.cut", m.group(1), udefs)
+    tt_cap = get_probe()["TT_CAPACITY"]
+
+    def mate_of(name, pat):
+        def go():
+            mm = need(f"search.{name}", pat, se)
+            return cexpr(f"search.{name}", mm.group(1), sdefs)
+        return go
+
+    last = CACHE.get(GROUP[0], {}).get("mate", {})
     mate = {}
-    for name, pat in [("mate_node", r"return Some\(Score::MIN \+ (\d+) \+ real_depth as Score\);"),
-                      ("mate_d1", r"fn get_best_move_score_depth_1.*?return Score::MIN \+ (\d+) \+ real_depth as Score;"),
-                      ("mate_q", r"fn quiescence_search.*?return Score::MIN \+ (\d+) \+ real_depth as Score;")]:
-        mm = need(f"search.{name}", pat, se)
-        mate[name] = int(mm.group(1))
-    m = need("search.exit_hi", r"best_score > Score::MAX - (\d+)", se)
-    exit_hi = int(m.group(1))
-    m = need("search.exit_lo", r"best_score < Score::MIN \+ (\d+)", se)
-    exit_lo = int(m.group(1))
-    full_window = re.findall(r"if index <= (\d+) \{", se)
-    if len(full_window) != 2 or len(set(full_window)) != 1:
-        raise ExtractError("search.full_window", str(full_window))
-    need("search.root_window", r"let mut best_score = Score::MIN \+ 1;", se)
+    for name, pat in [("mate_node", r"return Some\(Score::MIN \+ ([\w:]+) \+ real_depth as Score\);"),
+                      ("mate_d1", r"fn get_best_move_score_depth_1.*?return Score::MIN \+ ([\w:]+) \+ real_depth as Score;"),
+                      ("mate_q", r"fn quiescence_search.*?return Score::MIN \+ ([\w:]+) \+ real_depth as Score;")]:
+        try:
+            mate[name] = mate_of(name, pat)()
+        except ExtractError as e:
+            if name not in last:
+                raise
+            DRIFT.append({"item": e.item, "pattern": str(e)[:100], "kept_last_good": name})
+            mate[name] = last[name]
+
+    def exit_hi_f():
+        m = need("search.exit_hi", r"best_score (>=|>) Score::MAX - ([\w:]+)", se)
+        v = cexpr("search.exit_hi", m.group(2), sdefs)
+        return v if m.group(1) == ">" else v + 1
+
+    def exit_lo_f():
+        m = need("search.exit_lo", r"best_score (<=|<) Score::MIN \+ ([\w:]+)", se)
+        v = cexpr("search.exit_lo", m.group(2), sdefs)
+        return v if m.group(1) == "<" else v + 1
+
+    exit_hi = soft("search.exit_hi", "exit_hi", exit_hi_f)
+    exit_lo = soft("search.exit_lo", "exit_lo", exit_lo_f)
+
+    def fw():
+        found = re.findall(r"if index (<=|<) ([\w:]+) \{", se)
+        vals = [cexpr("search.full_window", v, sdefs) - (0 if op == "<=" else 1) for op, v in found]
+        if len(vals) != 2 or len(set(vals)) != 1:
+            raise ExtractError("search.full_window", str(found))
+        return [str(vals[0]), str(vals[1])]
+
+    full_window = soft("search.full_window", "full_window", fw)
+    need_shape("search.root_window", r"let mut best_score = Score::MIN \+ 1;", se)
     C["caps"] = {"state": state_cap, "moves": moves_cap, "killer": killer_len, "history": history_len,
                  "len_guard": len_guard, "tt": tt_cap, "max_depth": max_depth_const}
     C["search"] = {"mate": mate, "exit_hi": exit_hi, "exit_lo": exit_lo, "full_window": int(full_window[0])}
@@ -448,7 +647,7 @@ def emit(V, C, broken):
     def pairlist(ps):
         return "[" + ", ".join(f"(({a} : Int), ({b} : Int))" for a, b in ps) + "]"
 
-    zl = f"""-- GENERATED by tools/extract.py from {REPO}/src/chess/zobrist.rs + zobrist_bytes.bin + README.md. Do not edit.
+    zl = f"""-- GENERATED by tools/extract.py from src/chess/zobrist.rs + zobrist_bytes.bin + README.md of the repository working tree. Do not edit.
 namespace Chess.Gen
 
 def blackToMove : UInt64 := 0x{btm:016X}
@@ -463,7 +662,7 @@ def readmeStartHash : UInt64 := 0x{start_hash:016X}
 end Chess.Gen
 """
     lt = lambda d, k: "'" + d[k] + "'"
-    tl = f"""-- GENERATED by tools/extract.py from {REPO}/src. Do not edit.
+    tl = f"""-- GENERATED by tools/extract.py from src/ of the repository working tree. Do not edit.
 namespace Chess.Gen
 
 def queenScores : Array Int := {intarr(tables['QUEEN_SCORES'])}
@@ -575,7 +774,7 @@ end Chess.Gen
     ch1 = write_if_changed(os.path.join(OUT, "Zobrist.lean"), zl)
     ch2 = write_if_changed(os.path.join(OUT, "Tables.lean"), tl)
     write_if_changed(GEN_JSON, json.dumps(C, indent=1, sort_keys=True, ensure_ascii=False) + "\n")
-    print(json.dumps({"ok": True, "changed": [ch1, ch2], "zobrist_sha256": digest, "unsafe_sites": len(sites), "broken": broken}))
+    print(json.dumps({"ok": True, "changed": [ch1, ch2], "zobrist_sha256": digest, "unsafe_sites": len(sites), "broken": broken, "drift": DRIFT}))
 
 
 
@@ -620,7 +819,9 @@ def main():
     except Exception:
         cache = {}
     V, C, broken = {}, {}, []
+    CACHE.update(cache)
     for name, fn, props in GROUPS:
+        GROUP[0] = name
         try:
             vals = json.loads(json.dumps(fn(C)))          # normalise (tuples -> lists) exactly as the cache does
             cache[name] = vals
@@ -631,7 +832,7 @@ def main():
             vals = cache[name]
         V.update(vals)
     os.makedirs(os.path.dirname(GEN_JSON), exist_ok=True)
-    if not broken:
+    if not broken and not DRIFT:
         with open(cache_path, "w") as f:
             json.dump(cache, f)
     emit(V, C, broken)
